@@ -676,6 +676,24 @@ public:
     o["extern"] = V->getStorageClass() == SC_Extern ? 1 : 0;
     if (V->getTLSKind() != VarDecl::TLS_None) o["tls"] = 1;
     o["init"] = V->hasInit() ? 1 : 0;
+    // constant tables of integers (trial-division primes, round constants): the values
+    if (V->hasInit() && V->getType().isConstQualified()) {
+      if (const InitListExpr *IL = dyn_cast<InitListExpr>(V->getInit()->IgnoreParenImpCasts())) {
+        if (IL->getNumInits() > 0 && IL->getNumInits() <= 4096) {
+          json::Array vals;
+          bool ok = true;
+          for (const Expr *E : IL->inits()) {
+            Expr::EvalResult R;
+            if (E->EvaluateAsInt(R, Ctx, Expr::SE_NoSideEffects)) {
+              llvm::APSInt I = R.Val.getInt();
+              if (I.isSigned() || I.getActiveBits() < 63) vals.push_back((int64_t)I.getExtValue());
+              else { llvm::SmallString<32> buf; I.toString(buf, 10); vals.push_back(buf.str().str()); }
+            } else { ok = false; break; }
+          }
+          if (ok) o["vals"] = std::move(vals);
+        }
+      }
+    }
     Globals.push_back(std::move(o));
   }
 
